@@ -738,8 +738,12 @@ Qed.
 
 (* ------------------------------------------------------------------ objects *)
 
+(* patternProperties: every pattern compiles (an invalid one is skipped by the code) and, as in a Go map, no pattern twice *)
+Definition pats_ok (s : schema) : Prop :=
+  Forall (fun pp => o_re_ok OR (fst pp) = true) (s_pat_props s) /\ NoDup (map fst (s_pat_props s)).
+
 Definition object_clean (s : schema) : Prop :=
-  s_pat_props s = [] /\
+  pats_ok s /\
   (forall k ps, In (k, ps) (s_props s) -> s_default ps <> None -> ~ In k (s_required s)) /\
   NoDup (map fst (s_props s)) /\
   (forall sa, s_add_props s <> Some (false, Some sa)).
@@ -752,36 +756,109 @@ Proof.
   constructor; [split; [exact Hk | split; [exact Hj | exact Hy]] | apply IH; exact Hys].
 Qed.
 
-Lemma no_additional_agree s p m : s_pat_props s = [] -> plain_members m -> forall r,
-  r_valid (no_additional_properties OR s p m r) = r_valid r && forallb (fun kv => has_prop s (fst kv)) m.
+(* ---- patternProperties ---- *)
+Definition pmatch (k : str) (pp : str * schema) : bool := o_re_match OR (fst pp) k.
+Definition matched_any (s : schema) (k : str) : bool := existsb (pmatch k) (s_pat_props s).
+Definition PVl (pps : list (str * schema)) (k : str) (v : goval) : bool := forallb (fun pp => negb (pmatch k pp) || V (snd pp) v) pps.
+Definition PV (s : schema) (k : str) (v : goval) : bool := PVl (s_pat_props s) k v.
+
+Lemma pattern_property_agree pps p key value :
+  Forall (fun pp => o_re_ok OR (fst pp) = true) pps -> Forall (fun pp => goods (snd pp)) pps -> jds value ->
+  forall r matched pats, exists r' M L,
+    pattern_property OR rec_sp pps p key value r matched pats = Ok (M, L, r') /\
+    M = matched || existsb (pmatch key) pps /\ L = pats ++ filter (pmatch key) pps /\
+    r_valid r' = r_valid r && PVl pps key value.
 Proof.
-  intros Hpp Hm. induction Hm as [|[k v] t [[H1 [H2 H3]] _] Ht IH]; intros r; [cbn; rewrite andb_true_r; reflexivity|].
+  intros Hok Hg Hv. induction pps as [|[k ps] t IH]; intros r matched pats.
+  - exists r, matched, pats. cbn [pattern_property existsb filter PVl forallb]. rewrite orb_false_r, app_nil_r, andb_true_r. auto.
+  - inversion Hok as [|x xs Hk Hks]; subst. inversion Hg as [|y ys Hgp Hgs]; subst. cbn [fst snd] in Hk, Hgp.
+    cbn [pattern_property existsb filter PVl forallb]. change (pmatch key (k, ps)) with (o_re_match OR k key). cbn [fst snd]. rewrite Hk. cbn [negb].
+    destruct (o_re_match OR k key) eqn:Em; cbn [negb orb].
+    + unfold rec. destruct (goodc_V Ds ps (p ++ [SDot key]) (p ++ [SDot key]) value Hgp (proj1 Hv) (proj2 Hv)) as [x [Hx [Hvx _]]]. rewrite Hx. cbn [bind].
+      destruct (IH Hks Hgs (merge r (Some x)) true (pats ++ [(k, ps)])) as [r' [M [L [H1 [H2 [H3 H4]]]]]].
+      exists r', M, L. split; [exact H1|]. split; [rewrite H2, orb_true_r; reflexivity|]. split; [rewrite H3, <- app_assoc; reflexivity|].
+      rewrite H4, r_valid_merge, Hvx. fold (PVl t key value). btauto.
+    + destruct (IH Hks Hgs r matched pats) as [r' [M [L [H1 [H2 [H3 H4]]]]]]. exists r', M, L. repeat split; assumption.
+Qed.
+
+Lemma vpp_agree s p key value r : pats_ok s -> kids2 goods goodu s -> jds value ->
+  exists r', validate_pattern_property OR rec_sp s p key value r = Ok (matched_any s key, filter (pmatch key) (s_pat_props s), r') /\
+             r_valid r' = r_valid r && PV s key value.
+Proof.
+  intros [Hok _] [_ [_ [_ [_ [Kpp _]]]]] Hv. unfold validate_pattern_property, matched_any, PV.
+  destruct (s_pat_props s) as [|pp0 ppt] eqn:E; [exists r; cbn; rewrite andb_true_r; auto|].
+  destruct (pattern_property_agree (pp0 :: ppt) p key value Hok Kpp Hv r false []) as [r' [M [L [H1 [H2 [H3 H4]]]]]].
+  exists r'. rewrite H1, H2, H3. auto.
+Qed.
+
+Lemma forallb_filter_implied {A} (m v : A -> bool) l :
+  forallb (fun x => negb (m x) || v x) l && forallb v (filter m l) = forallb (fun x => negb (m x) || v x) l.
+Proof. induction l as [|x t IH]; [reflexivity|]. cbn [forallb filter]. destruct (m x); cbn [negb orb forallb]; rewrite <- IH; btauto. Qed.
+
+Lemma merge_patterns_agree s p obj key value : pats_ok s -> kids2 goods goodu s -> jds value -> forall pats,
+  (forall pp, In pp pats -> In pp (s_pat_props s)) -> forall r,
+  exists r', merge_patterns rec_sp pats s p obj key value r = Ok r' /\ r_valid r' = r_valid r && forallb (fun pp => V (snd pp) value) pats.
+Proof.
+  intros [_ Hnd] [_ [_ [_ [_ [Kpp _]]]]] Hv. induction pats as [|[pn ps'] t IH]; intros Hin r; [exists r; cbn; rewrite andb_true_r; auto|].
+  cbn [merge_patterns forallb snd].
+  assert (Hl : lookup_schema (s_pat_props s) pn = Some ps') by (apply (lookup_schema_in _ pn ps' Hnd); apply Hin; left; reflexivity).
+  rewrite Hl. assert (Hg : goods ps') by (apply (lookup_schema_forall goods _ _ _ Kpp Hl)).
+  unfold rec. destruct (goodc_V Ds ps' (p ++ [SDot key]) (p ++ [SDot key]) value Hg (proj1 Hv) (proj2 Hv)) as [x [Hx [Hvx _]]]. rewrite Hx. cbn [bind].
+  destruct (IH (fun pp Hpp => Hin pp (or_intror Hpp)) (merge_for_field r obj key x)) as [r' [H1 H2]]. exists r'. split; [exact H1|].
+  rewrite H2, r_valid_merge_for_field, Hvx. btauto.
+Qed.
+
+Lemma pattern_loop_agree s p obj m : pats_ok s -> kids2 goods goodu s -> plain_members m -> forall r,
+  exists r', pattern_loop OR rec_sp s p obj m r = Ok r' /\ r_valid r' = r_valid r && forallb (fun kv => PV s (fst kv) (snd kv)) m.
+Proof.
+  intros Hp K Hm. induction Hm as [|[k v] t [_ Hjv] Ht IH]; intros r; [exists r; cbn; rewrite andb_true_r; auto|]. cbn [snd] in Hjv.
+  cbn [pattern_loop forallb fst snd]. destruct (vpp_agree s p k v r Hp K Hjv) as [r1 [H1 Hv1]]. rewrite H1. cbn [bind].
+  destruct (has_prop s k || negb (matched_any s k)).
+  - destruct (IH r1) as [r' [G1 G2]]. exists r'. split; [exact G1|]. rewrite G2, Hv1. btauto.
+  - destruct (merge_patterns_agree s p obj k v Hp K Hjv (filter (pmatch k) (s_pat_props s)) (fun pp Hpp => proj1 (proj1 (filter_In _ _ _) Hpp)) r1) as [r2 [G1 G2]].
+    rewrite G1. cbn [bind]. destruct (IH r2) as [r' [G3 G4]]. exists r'. split; [exact G3|].
+    rewrite G4, G2, Hv1. unfold PV, PVl.
+    pose proof (forallb_filter_implied (pmatch k) (fun pp => V (snd pp) v) (s_pat_props s)) as E.
+    set (A := forallb (fun x => negb (pmatch k x) || V (snd x) v) (s_pat_props s)) in *.
+    set (B := forallb (fun pp => V (snd pp) v) (filter (pmatch k) (s_pat_props s))) in *.
+    clearbody A B. destruct A, B; cbn in E; try discriminate E; btauto.
+Qed.
+
+Lemma no_additional_agree s p m : pats_ok s -> plain_members m -> forall r,
+  r_valid (no_additional_properties OR s p m r) = r_valid r && forallb (fun kv => has_prop s (fst kv) || matched_any s (fst kv)) m.
+Proof.
+  intros [Hok _] Hm. induction Hm as [|[k v] t [[H1 [H2 H3]] _] Ht IH]; intros r; [cbn; rewrite andb_true_r; reflexivity|].
   cbn [no_additional_properties forallb fst]. cbn [fst] in H1, H2, H3.
   destruct (Z.eqb_spec k k_dollar_schema) as [e|_]; [contradiction|]. destruct (Z.eqb_spec k k_id) as [e|_]; [contradiction|]. cbn [orb].
-  destruct (has_prop s k); [rewrite IH; reflexivity|]. rewrite Hpp. cbn [existsb].
+  destruct (has_prop s k); [rewrite IH; reflexivity|].
+  assert (E : existsb (fun pk => o_re_ok OR (fst pk) && o_re_match OR (fst pk) k) (s_pat_props s) = matched_any s k).
+  { unfold matched_any. clear - Hok. induction Hok as [|pp l Hpp Hl IHl]; [reflexivity|]. cbn [existsb]. unfold pmatch at 1. rewrite Hpp, IHl. reflexivity. }
+  rewrite E. destruct (matched_any s k); [rewrite IH; reflexivity|]. cbv zeta.
   destruct (Z.eqb_spec k k_headers) as [e|_]; [contradiction|]. rewrite IH, r_valid_add. btauto.
 Qed.
 
 Definition add_rule (s : schema) (v : goval) : bool :=
   match s_add_props s with Some (_, Some sa) => V sa v | _ => true end.
 
-Lemma additional_agree s p obj m : kids2 goods goodu s -> s_pat_props s = [] -> plain_members m -> forall r,
+Lemma additional_agree s p obj m : kids2 goods goodu s -> pats_ok s -> plain_members m -> forall r,
   exists r', additional_properties OR rec_sp s p obj m r = Ok r' /\
-             r_valid r' = r_valid r && forallb (fun kv => has_prop s (fst kv) || add_rule s (snd kv)) m.
+             r_valid r' = r_valid r && forallb (fun kv => has_prop s (fst kv) || (PV s (fst kv) (snd kv) && (matched_any s (fst kv) || add_rule s (snd kv)))) m.
 Proof.
-  intros [_ [_ [_ [_ [_ [Ka _]]]]]] Hpp Hm. induction Hm as [|[k v] t [_ Hjv] Ht IH]; intros r; [exists r; cbn; rewrite andb_true_r; auto|].
+  intros K Hp Hm. pose proof K as [_ [_ [_ [_ [_ [Ka _]]]]]]. induction Hm as [|[k v] t [_ Hjv] Ht IH]; intros r; [exists r; cbn; rewrite andb_true_r; auto|].
   cbn [additional_properties forallb fst snd]. cbn [snd] in Hjv. destruct (has_prop s k).
   - destruct (IH r) as [r' [H1 H2]]. exists r'. split; [exact H1 | rewrite H2; reflexivity].
-  - unfold validate_pattern_property. rewrite Hpp. cbn [bind orb].
-    destruct (s_add_props s) as [[a [sa|]]|] eqn:E.
-    + assert (Har : add_rule s v = V sa v) by (unfold add_rule; rewrite E; reflexivity).
-      unfold rec. destruct (goodc_V Ds sa (p ++ [SDot k]) (p ++ [SDot k]) v (Ka a sa eq_refl) (proj1 Hjv) (proj2 Hjv)) as [x [Hx [Hv _]]]. rewrite Hx. cbn [bind].
-      destruct (IH (merge_for_field r obj k x)) as [r' [H1 H2]]. exists r'. split; [exact H1|].
-      rewrite H2, r_valid_merge_for_field, Hv, Har. btauto.
-    + assert (Har : add_rule s v = true) by (unfold add_rule; rewrite E; reflexivity).
-      destruct (IH r) as [r' [H1 H2]]. exists r'. split; [exact H1 | rewrite H2, Har; reflexivity].
-    + assert (Har : add_rule s v = true) by (unfold add_rule; rewrite E; reflexivity).
-      destruct (IH r) as [r' [H1 H2]]. exists r'. split; [exact H1 | rewrite H2, Har; reflexivity].
+  - destruct (vpp_agree s p k v r Hp K Hjv) as [r1 [G1 Hv1]]. rewrite G1. cbn [bind orb].
+    destruct (matched_any s k).
+    + destruct (IH r1) as [r' [H1 H2]]. exists r'. split; [exact H1|]. rewrite H2, Hv1. btauto.
+    + destruct (s_add_props s) as [[a [sa|]]|] eqn:E.
+      * assert (Har : add_rule s v = V sa v) by (unfold add_rule; rewrite E; reflexivity).
+        unfold rec. destruct (goodc_V Ds sa (p ++ [SDot k]) (p ++ [SDot k]) v (Ka a sa eq_refl) (proj1 Hjv) (proj2 Hjv)) as [x [Hx [Hv _]]]. rewrite Hx. cbn [bind].
+        destruct (IH (merge_for_field r1 obj k x)) as [r' [H1 H2]]. exists r'. split; [exact H1|].
+        rewrite H2, r_valid_merge_for_field, Hv, Har, Hv1. btauto.
+      * assert (Har : add_rule s v = true) by (unfold add_rule; rewrite E; reflexivity).
+        destruct (IH r1) as [r' [H1 H2]]. exists r'. split; [exact H1 | rewrite H2, Har, Hv1; btauto].
+      * assert (Har : add_rule s v = true) by (unfold add_rule; rewrite E; reflexivity).
+        destruct (IH r1) as [r' [H1 H2]]. exists r'. split; [exact H1 | rewrite H2, Har, Hv1; btauto].
 Qed.
 
 Lemma properties_agree p obj m : plain_members m -> forall props,
@@ -815,12 +892,6 @@ Proof.
       * rewrite H2, Hr0. reflexivity.
     + destruct (IH r created) as [r' [c' [H1 [Hc H2]]]]. exists r', c'. split; [exact H1|]. split; [|rewrite H2; reflexivity].
       intros k Hk. destruct (Hc k Hk) as [Hk' | [ps0 [Hin Hd]]]; [left; exact Hk' | right; exists ps0; split; [right; exact Hin | exact Hd]].
-Qed.
-
-Lemma pattern_loop_none s p obj m : s_pat_props s = [] -> forall r, pattern_loop OR rec_sp s p obj m r = Ok r.
-Proof.
-  intros Hpp. induction m as [|[k v] t IH]; intros r; [reflexivity|]. cbn [pattern_loop]. unfold validate_pattern_property. rewrite Hpp.
-  cbn [bind negb]. rewrite orb_true_r. apply IH.
 Qed.
 
 Lemma contains_in k l : contains k l = true <-> In k l.
@@ -858,20 +929,39 @@ Proof.
   intros y Hy. apply H. right; exact Hy.
 Qed.
 
+Lemma all_opt_app l1 l2 : all_opt (l1 ++ l2) = match all_opt l1, all_opt l2 with Some a, Some b => Some (a && b) | _, _ => None end.
+Proof.
+  induction l1 as [|[x|] t IH]; cbn [app all_opt].
+  - destruct (all_opt l2); reflexivity.
+  - rewrite IH. destruct (all_opt t), (all_opt l2); try reflexivity. rewrite andb_assoc. reflexivity.
+  - reflexivity.
+Qed.
+
+(* L0 on the patterns that match a member name *)
+Lemma by_pat_agree pps k v : Forall (fun pp => goods (snd pp)) pps -> jds v ->
+  all_opt (flat_map (fun pp => if o_re_match OR (fst pp) k then [recd (snd pp) v] else []) pps) = Some (PVl pps k v) /\
+  (match flat_map (fun pp => if o_re_match OR (fst pp) k then [recd (snd pp) v] else []) pps with [] => false | _ => true end) = existsb (pmatch k) pps.
+Proof.
+  intros Hg Hv. induction Hg as [|[pk ps] t Hgp Ht [IH1 IH2]]; [split; reflexivity|]. cbn [flat_map PVl forallb existsb]. change (pmatch k (pk, ps)) with (o_re_match OR pk k). cbn [fst snd] in *.
+  destruct (o_re_match OR pk k); cbn [negb orb app].
+  - destruct (goodc_V Ds ps [] [] v Hgp (proj1 Hv) (proj2 Hv)) as [_ [_ [_ Hr]]]. rewrite Hr. cbn [all_opt]. rewrite IH1. split; reflexivity.
+  - split; [exact IH1 | exact IH2].
+Qed.
+
 Lemma object_agree p s id m : kids2 goods goodu s -> object_clean s -> jd (VObj id m) -> Du (VObj id m) -> subm m ->
   exists r, object_validate OR opt rec_sp p s (VObj id m) = Ok r /\
             object_ok OR recd s (VObj id m) = Some (r_valid r && deps_verdict s (VObj id m)).
 Proof.
   intros K [Hpp [Hdef [Hnd Hfa]]] Hjd HDu Hsub. pose proof (deps_L0 s id m K Hjd HDu) as Hdeps. apply jd_obj in Hjd. destruct Hjd as [Hm0 Hndm].
   pose proof (plain_members_of m Hm0 Hsub) as Hm.
-  pose proof K as [_ [_ [_ [Kp [_ [Ka _]]]]]].
+  pose proof K as [_ [_ [_ [Kp [Kpp [Ka _]]]]]].
   unfold object_validate, object_ok. cbv zeta. set (n := Z.of_nat (length m)).
   (* the verdict of L0 on the members *)
+  set (arule := fun v : goval => match s_add_props s with Some (_, Some sa) => V sa v | Some (false, None) => false | _ => true end).
   set (member_b := fun kv : str * goval =>
-         match lookup_schema (s_props s) (fst kv) with
-         | Some ps => V ps (snd kv)
-         | None => match s_add_props s with Some (_, Some sa) => V sa (snd kv) | Some (false, None) => false | _ => true end
-         end).
+         (match lookup_schema (s_props s) (fst kv) with Some ps => V ps (snd kv) | None => true end) &&
+         PV s (fst kv) (snd kv) &&
+         (has_prop s (fst kv) || matched_any s (fst kv) || arule (snd kv))).
   assert (Hmem : all_opt (map (fun kv : str * goval =>
                     let (k, v) := kv in
                     all_opt ((match lookup_schema (s_props s) k with Some ps => [recd ps v] | None => [] end) ++
@@ -885,15 +975,25 @@ Proof.
                                    | Some (false, None) => [Some false]
                                    | _ => []
                                    end))) m) = Some (forallb member_b m)).
-  { apply all_opt_some_forallb. intros [k v] Hin. unfold member_b. cbn [fst snd]. rewrite Hpp. cbn [flat_map app].
+  { apply all_opt_some_forallb. intros [k v] Hin. unfold member_b, PV, matched_any, has_prop, arule. cbn [fst snd].
     assert (Hjv : jds v) by (apply (proj2 (proj1 (Forall_forall _ m) Hm (k, v) Hin))).
+    destruct (by_pat_agree (s_pat_props s) k v Kpp Hjv) as [Hbp Hany].
+    rewrite !all_opt_app, Hbp.
+    assert (Hdesc : (match (match lookup_schema (s_props s) k with Some ps => [recd ps v] | None => [] end),
+                           (flat_map (fun pp => if o_re_match OR (fst pp) k then [recd (snd pp) v] else []) (s_pat_props s))
+                     with [], [] => false | _, _ => true end)
+                    = (match lookup_schema (s_props s) k with Some _ => true | None => false end) || existsb (pmatch k) (s_pat_props s)).
+    { rewrite <- Hany. destruct (lookup_schema (s_props s) k); [reflexivity|].
+      destruct (flat_map (fun pp => if o_re_match OR (fst pp) k then [recd (snd pp) v] else []) (s_pat_props s)); reflexivity. }
+    rewrite Hdesc.
     destruct (lookup_schema (s_props s) k) as [ps|] eqn:E.
     - assert (Hg : goods ps) by (apply (lookup_schema_forall goods _ _ _ Kp E)).
-      destruct (goodc_V Ds ps [] [] v Hg (proj1 Hjv) (proj2 Hjv)) as [_ [_ [_ Hr]]]. rewrite Hr. cbn [app]. change (all_opt [Some (V ps v)]) with (Some (V ps v && true)). rewrite andb_true_r. reflexivity.
-    - cbn [app]. destruct (s_add_props s) as [[a [sa|]]|] eqn:Ea.
-      + destruct (goodc_V Ds sa [] [] v (Ka a sa eq_refl) (proj1 Hjv) (proj2 Hjv)) as [_ [_ [_ Hr]]]. rewrite Hr. cbn [app]. destruct a; change (all_opt [Some (V sa v)]) with (Some (V sa v && true)); rewrite andb_true_r; reflexivity.
-      + destruct a; reflexivity.
-      + reflexivity. }
+      destruct (goodc_V Ds ps [] [] v Hg (proj1 Hjv) (proj2 Hjv)) as [_ [_ [_ Hr]]]. rewrite Hr. cbn [orb all_opt]. apply f_equal. btauto.
+    - cbn [orb all_opt]. destruct (existsb (pmatch k) (s_pat_props s)); cbn [orb all_opt]; [apply f_equal; btauto|].
+      destruct (s_add_props s) as [[a [sa|]]|] eqn:Ea.
+      + destruct (goodc_V Ds sa [] [] v (Ka a sa eq_refl) (proj1 Hjv) (proj2 Hjv)) as [_ [_ [_ Hr]]]. rewrite Hr. destruct a; cbn [all_opt]; apply f_equal; btauto.
+      + destruct a; cbn [all_opt]; apply f_equal; btauto.
+      + cbn [all_opt]. apply f_equal. btauto. }
   rewrite Hmem, Hdeps. set (dv := deps_verdict s (VObj id m)).
   set (sizes := (match s_max_props s with Some mx => n <=? mx | None => true end) && (match s_min_props s with Some mn => mn <=? n | None => true end)).
   set (required := forallb (fun k => match lookup_member m k with Some _ => true | None => false end) (s_required s)).
@@ -913,26 +1013,35 @@ Proof.
                            | Some (false, _) => Ok (no_additional_properties OR s p m new_res)
                            | _ => additional_properties OR rec_sp s p id m new_res
                            end) = Ok r1 /\
-               r_valid r1 = forallb (fun kv => has_prop s (fst kv) ||
-                                     match s_add_props s with Some (_, Some sa) => V sa (snd kv) | Some (false, None) => false | _ => true end) m).
+               r_valid r1 = forallb (fun kv => has_prop s (fst kv) || (PV s (fst kv) (snd kv) && (matched_any s (fst kv) || arule (snd kv))) ||
+                                               (match s_add_props s with Some (false, None) => matched_any s (fst kv) | _ => false end)) m).
   { destruct (s_add_props s) as [[[|] o]|] eqn:Ea.
-    - destruct (additional_agree s p id m K Hpp Hm new_res) as [r1 [G1 G2]]. exists r1. split; [exact G1|]. rewrite G2. unfold add_rule. rewrite Ea.
-      cbn [r_valid new_res r_errs andb]. apply forallb_ext_in. intros [k v] _. destruct o; reflexivity.
+    - destruct (additional_agree s p id m K Hpp Hm new_res) as [r1 [G1 G2]]. exists r1. split; [exact G1|]. rewrite G2. unfold add_rule, arule. rewrite ?Ea.
+      cbn [r_valid new_res r_errs andb]. apply forallb_ext_in. intros [k v] _. rewrite orb_false_r. destruct o; reflexivity.
     - destruct o as [sa|]; [exfalso; apply (Hfa sa); reflexivity|]. eexists. split; [reflexivity|].
-      rewrite (no_additional_agree s p m Hpp Hm). cbn [r_valid new_res r_errs andb]. apply forallb_ext_in. intros [k v] _. rewrite orb_false_r. reflexivity.
-    - destruct (additional_agree s p id m K Hpp Hm new_res) as [r1 [G1 G2]]. exists r1. split; [exact G1|]. rewrite G2. unfold add_rule. rewrite Ea.
-      cbn [r_valid new_res r_errs andb]. reflexivity. }
+      rewrite (no_additional_agree s p m Hpp Hm). cbn [r_valid new_res r_errs andb]. apply forallb_ext_in. intros [k v] _. unfold arule. rewrite ?Ea. cbn [fst snd].
+      destruct (has_prop s k), (matched_any s k), (PV s k v); reflexivity.
+    - destruct (additional_agree s p id m K Hpp Hm new_res) as [r1 [G1 G2]]. exists r1. split; [exact G1|]. rewrite G2. unfold add_rule, arule. rewrite ?Ea.
+      cbn [r_valid new_res r_errs andb]. apply forallb_ext_in. intros [k v] _. rewrite orb_false_r. reflexivity. }
   destruct H1 as [r1 [G1 Hv1]]. rewrite G1. cbn [bind].
   destruct (properties_agree p id m Hm (s_props s) Kp r1 []) as [r2 [created [G2 [Hcr Hv2]]]]. rewrite G2. cbn [bind].
-  rewrite (pattern_loop_none s p id m Hpp). eexists. split; [reflexivity|]. f_equal.
+  match goal with |- exists r, pattern_loop _ _ _ _ _ _ ?r3 = Ok r /\ _ =>
+    destruct (pattern_loop_agree s p id m Hpp K Hm r3) as [r4 [G4 Hv4]]
+  end.
+  exists r4. split; [exact G4|]. f_equal. rewrite Hv4.
   rewrite (required_agree s p m r2 created).
   2:{ intros k Hk Hin. destruct (Hcr k Hin) as [[] | [ps [Hps Hd]]]. apply (Hdef k ps Hps Hd Hk). }
   rewrite Hv2, Hv1, Hsz. fold required.
   rewrite <- (swap_iteration V (s_props s) m Hnd Hndm).
-  transitivity (required && (forallb (fun kv => has_prop s (fst kv) || match s_add_props s with Some (_, Some sa) => V sa (snd kv) | Some (false, None) => false | _ => true end) m &&
-                             forallb (fun kv => match lookup_schema (s_props s) (fst kv) with Some ps => V ps (snd kv) | None => true end) m) && dv); [|btauto].
-  cbn [andb]. rewrite andb_true_r. rewrite andb_assoc. f_equal. f_equal. rewrite <- forallb_andb_pointwise. apply forallb_ext_in. intros [k v] _. unfold member_b, has_prop. cbn [fst snd].
-  destruct (lookup_schema (s_props s) k); cbn [orb andb]; [reflexivity | rewrite andb_true_r; reflexivity].
+  cbn [andb]. rewrite andb_true_r.
+  transitivity (required && (forallb (fun kv => has_prop s (fst kv) || (PV s (fst kv) (snd kv) && (matched_any s (fst kv) || arule (snd kv))) ||
+                                                (match s_add_props s with Some (false, None) => matched_any s (fst kv) | _ => false end)) m &&
+                             forallb (fun kv => match lookup_schema (s_props s) (fst kv) with Some ps => V ps (snd kv) | None => true end) m &&
+                             forallb (fun kv => PV s (fst kv) (snd kv)) m) && dv); [|btauto].
+  rewrite <- !andb_assoc. f_equal. rewrite !andb_assoc. f_equal.
+  rewrite <- !forallb_andb_pointwise. apply forallb_ext_in. intros [k v] _. unfold member_b, has_prop. cbn [fst snd].
+  generalize (arule v). intros ar.
+  destruct (lookup_schema (s_props s) k) as [ps0|]; [destruct (V ps0 v)|]; destruct (PV s k v), (matched_any s k), ar, (s_add_props s) as [[[|] [sa|]]|]; reflexivity.
 Qed.
 
 (* ------------------------------------------------------------------ one schema level *)
